@@ -1,0 +1,52 @@
+//go:build verif
+// +build verif
+
+package sm2
+
+import "math/big"
+
+// Verification hooks (build tag "verif" only): thin wrappers that expose the
+// internal field and point arithmetic to the property harness in /verif.
+
+type VerifFE = sm2P256FieldElement
+
+func VerifFEFromBig(x *big.Int) VerifFE {
+	P256Sm2()
+	var e sm2P256FieldElement
+	sm2P256FromBig(&e, x)
+	return e
+}
+
+func VerifFEToBig(e *VerifFE) *big.Int { P256Sm2(); return sm2P256ToBig(e) }
+
+func VerifFEMul(a, b *VerifFE) VerifFE        { var c sm2P256FieldElement; sm2P256Mul(&c, a, b); return c }
+func VerifFESquare(a *VerifFE) VerifFE        { var c sm2P256FieldElement; sm2P256Square(&c, a); return c }
+func VerifFEAdd(a, b *VerifFE) VerifFE        { var c sm2P256FieldElement; sm2P256Add(&c, a, b); return c }
+func VerifFESub(a, b *VerifFE) VerifFE        { var c sm2P256FieldElement; sm2P256Sub(&c, a, b); return c }
+func VerifFEScalar(a *VerifFE, k int) VerifFE { c := *a; sm2P256Scalar(&c, k); return c }
+
+func VerifPointAdd(x1, y1, z1, x2, y2, z2 VerifFE) (x3, y3, z3 VerifFE) {
+	sm2P256PointAdd(&x1, &y1, &z1, &x2, &y2, &z2, &x3, &y3, &z3)
+	return
+}
+
+func VerifPointSub(x1, y1, z1, x2, y2, z2 VerifFE) (x3, y3, z3 VerifFE) {
+	sm2P256PointSub(&x1, &y1, &z1, &x2, &y2, &z2, &x3, &y3, &z3)
+	return
+}
+
+func VerifPointDouble(x, y, z VerifFE) (x3, y3, z3 VerifFE) {
+	sm2P256PointDouble(&x3, &y3, &z3, &x, &y, &z)
+	return
+}
+
+func VerifPointAddMixed(x1, y1, z1, x2, y2 VerifFE) (x3, y3, z3 VerifFE) {
+	sm2P256PointAddMixed(&x3, &y3, &z3, &x1, &y1, &z1, &x2, &y2)
+	return
+}
+
+func VerifToAffine(x, y, z VerifFE) (*big.Int, *big.Int) { return sm2P256ToAffine(&x, &y, &z) }
+
+func VerifWNAF(k []byte) []int8 { P256Sm2(); return sm2GenrateWNaf(k) }
+
+func VerifKDF(length int, x ...[]byte) ([]byte, bool) { return kdf(length, x...) }
